@@ -144,7 +144,7 @@ def rule_escape(ctx, ts, px):
                            f"autoescape is off for `{t.name}` (enabled only for .htm/.html/.xml/.json names) and the DSDL free text "
                            f"{xs(src)} is emitted without an escaping filter: `<script>` in a DSDL comment arrives as markup",
                            getattr(e, "lineno", None))
-    ctx.floor(R, n, 5)
+    ctx.floor(R, n, 4)
     # markup-building Python filters: every str.format / f-string argument that is not identifier-shaped must be escaped
     IDENT_ATTRS = {"name", "short_name", "full_name", "capacity", "version", "value", "root_namespace", "fixed_port_id", "bit_length"}
     for fname in ("filter_display_type", "filter_make_unique"):
